@@ -25,3 +25,25 @@ Proof.
   rewrite !N.sub_0_r. reflexivity.
 Qed.
 Print Assumptions C14_break_reaches_reader.
+
+(* the whole program: bytes after the point where the reader stopped are never looked at *)
+From Jawk Require Import Reader Expr Go LocalityProofs.
+
+(* if the run over pre++rest1 consumed at most |pre| bytes, every other continuation gives the same events, result and number of bytes pulled *)
+Theorem C14_go_rest_irrelevant :
+  forall (cf : cfg) (fname : option Base.str) (pre rest1 rest2 : list Base.byte)
+      (b : bool) (p : printer) (sts : list stage) (hdr : list Base.byte),
+    build_pipeline cf = Some (p, sts) ->
+    start_output p (Chain.titles expr sts nil) (c_rowsep cf) = Some hdr ->
+    let evs1 := List.map EB (pre ++ rest1) in
+    let evs2 := List.map EB (pre ++ rest2) in
+    consumed
+      (snd
+         (read_input cf p sts (length (Chain.titles expr sts nil)) (input_fuel evs1) 
+            (mk_reader evs1) fname (List.map (Chain.init_state expr) sts) BinNums.N0 BinNums.N0)) <=
+    length pre ->
+    g_events (go cf ((fname, evs1) :: nil) b) = g_events (go cf ((fname, evs2) :: nil) b) /\
+    g_result (go cf ((fname, evs1) :: nil) b) = g_result (go cf ((fname, evs2) :: nil) b) /\
+    g_pulled (go cf ((fname, evs1) :: nil) b) = g_pulled (go cf ((fname, evs2) :: nil) b).
+Proof. exact go_take_independent_of_rest. Qed.
+Print Assumptions C14_go_rest_irrelevant.
